@@ -7,6 +7,22 @@ import _prelude as P
 from input import SHIMS, UTF8
 
 
+GET_SPEC = r'''
+pub open spec fn bound_lo(b: Bound<&usize>) -> int { match b { Bound::Included(o) => *o as int, Bound::Excluded(o) => *o + 1, Bound::Unbounded => 0 } }
+pub open spec fn bound_hi(b: Bound<&usize>, len: int) -> int { match b { Bound::Included(o) => *o + 1, Bound::Excluded(o) => *o as int, Bound::Unbounded => len } }
+'''
+GET_CONTRACT = '''        requires self.wf(),
+                 // machine arithmetic: `*offset + 1` must not overflow (the source adds 1 to an inclusive end / exclusive start)
+                 bound_lo(RangeBoundsSpec::spec_start_bound(&range)) <= usize::MAX, bound_hi(RangeBoundsSpec::spec_end_bound(&range), self.text().len() as int) <= usize::MAX,
+        ensures ({
+            let a = bound_lo(RangeBoundsSpec::spec_start_bound(&range));
+            let b = bound_hi(RangeBoundsSpec::spec_end_bound(&range), self.text().len() as int);
+            // C13: Some exactly when a..b is a range of the span's text on character boundaries; then the same bytes, offsets shifted
+            &&& (r is Some) == (a <= b && b <= self.text().len() && is_char_boundary(self.text(), a) && is_char_boundary(self.text(), b))
+            &&& r is Some ==> r->0 == (Span { input: self.input, start: (self.start + a) as usize, end: (self.start + b) as usize }) && (r->0).wf()
+        }),'''
+
+
 def build(U):
     U.use('vstd::string::*')
     U.use('vstd::utf8::*')
@@ -16,9 +32,10 @@ def build(U):
     U.ghost(UTF8, 'UTF-8 lemmas')
     U.ghost('#[verifier::external_body]\nfn vpanic() -> ! requires false, { panic!() }', 'panic! is unreachable (requires false)')
     sp = U.impl('main/src/span.rs', "impl<'i> Span<'i>", r1=False).drop_attrs()
-    sp.keep_methods(['new_unchecked', 'new_full', 'new', 'start', 'end', 'get_input', 'as_str'])
+    sp.keep_methods(['new_unchecked', 'new_full', 'new', 'start', 'end', 'start_pos', 'end_pos', 'split', 'get_input', 'as_str'])
     sp.rw('R7', 'debug_assert!(input.get(start..end).is_some());\n', '')
     sp.rw('R2', 'pub(crate) unsafe fn new_unchecked', 'pub unsafe fn new_unchecked')
+    sp.rw('R2', 'position::Position', 'Position', count=8)
     sp.rw_slices()
     sp.ret('r', fname='new_unchecked')
     sp.contract('''        requires start <= end, end <= input.spec_bytes().len(), is_char_boundary(input.spec_bytes(), start as int), is_char_boundary(input.spec_bytes(), end as int),
@@ -34,8 +51,35 @@ def build(U):
     sp.contract('        requires self.wf(),\n        ensures r.spec_bytes() == self.text(),', fname='as_str')
     sp.ret('r', fname='start'); sp.contract('        ensures r == self.start,', fname='start')
     sp.ret('r', fname='end'); sp.contract('        ensures r == self.end,', fname='end')
+    sp.ret('r', fname='start_pos'); sp.contract('        requires self.wf(),\n        ensures r.input == self.input, r.pos == self.start,', fname='start_pos')
+    sp.ret('r', fname='end_pos'); sp.contract('        requires self.wf(),\n        ensures r.input == self.input, r.pos == self.end,', fname='end_pos')
+    sp.ret('r', fname='split'); sp.contract('        requires self.wf(),\n        ensures r.0.input == self.input, r.0.pos == self.start, r.1.input == self.input, r.1.pos == self.end,', fname='split')
     sp.ret('r', fname='get_input'); sp.contract('        ensures r == self.input,', fname='get_input')
     U.emit(sp)
+
+    # ---- Span::get, instantiated at the six range forms (R10: `impl RangeBounds<usize>` -> the concrete type) ------------
+    U.use('core::ops::{Bound, RangeBounds, RangeFrom, RangeTo, RangeInclusive, RangeToInclusive, RangeFull}')
+    U.use('vstd::std_specs::range::*')
+    U.ghost(GET_SPEC, 'C13: what Span::get returns, from the statement (str::get on the text of the span, offsets shifted)')
+    for suffix, ty in (('range', 'Range<usize>'), ('from', 'RangeFrom<usize>'), ('to', 'RangeTo<usize>'), ('inclusive', 'RangeInclusive<usize>'),
+                       ('to_inclusive', 'RangeToInclusive<usize>'), ('full', 'RangeFull')):
+        g = U.impl('main/src/span.rs', "impl<'i> Span<'i>", r1=False).drop_attrs()
+        g.keep_methods(['get'])
+        g.rw('R10', 'pub fn get(&self, range: impl RangeBounds<usize>)', 'pub fn get_%s(&self, range: %s)' % (suffix, ty))
+        g.name = "impl Span (get at %s)" % ty
+        g.rw_slices()
+        g.ret('r', fname='get_' + suffix)
+        g.contract(GET_CONTRACT, fname='get_' + suffix)
+        g.closure(1, params='_x: &str', contract="-> (o: Span<'i>) requires start <= end, end <= self.end - self.start, self.end <= usize::MAX, ensures o == (Span { input: self.input, start: (self.start + start) as usize, end: (self.start + end) as usize })", fname='get_' + suffix)
+        g.body_start('''        proof {
+            lemma_str_valid(self.input);
+            let a = bound_lo(RangeBoundsSpec::spec_start_bound(&range));
+            let b = bound_hi(RangeBoundsSpec::spec_end_bound(&range), self.text().len() as int);
+            lemma_sub_boundary(self.input.spec_bytes(), self.start as int, self.end as int, 0);
+            if 0 <= a <= self.end - self.start { lemma_sub_boundary(self.input.spec_bytes(), self.start as int, self.end as int, a); }
+            if 0 <= b <= self.end - self.start { lemma_sub_boundary(self.input.spec_bytes(), self.start as int, self.end as int, b); }
+        }''', fname='get_' + suffix)
+        U.emit(g)
 
     m = U.fn('main/src/span.rs', 'merge_spans', std=True).drop_attrs()
     m.rw('R3', 'core::cmp::min(', 'shim_min(')
